@@ -1293,7 +1293,7 @@ def run(ctx):
         execute(ctx, case)
         account(ctx, case)
     # 11. ids (and the Parent values naming them) that are not in Unicode normal form C; both spellings of one name as two features
-    for i in range(ctx.budget(90, 1800)):
+    for i in range(ctx.budget(72, 1600)):
         g = G.graph(rng, max_nodes=10)
         for _ in range(6):
             if len(g["nodes"]) < 2 or not any(n["parents"] for n in g["nodes"]):
@@ -1337,7 +1337,10 @@ MANIFEST = {
             "defaults, with foreign_keys='ON' added and with other result-neutral settings, on ':memory:' and file databases, the "
             "latter also judged through a new FeatureDB(dbfn, pragmas=...); and every file is written with LF, CRLF and bare CR "
             "line ends and given as a path, via from_string or gzip-compressed (LF/CRLF). All imports of one file must give the "
-            "model's relations and identical relation sets. "
+            "model's relations and identical relation sets. A last class renames ids and the Parent values naming them to texts "
+            "that are not in Unicode normal form C (letter + combining mark, conjoining jamo, ANGSTROM / OHM / KELVIN SIGN) and lets "
+            "one feature with children exist in both spellings as two features: stored ids and all relatives are expected "
+            "code point for code point as in the input text. "
             "Held = no executed import disagreed.",
     "note": "Trusted: gvmon/models/hierarchy.py. The hostile-id class (blanks at the ends, U+0085/U+00A0, escaped TAB/LF) is "
             "kept apart: its violations are prefixed 'hostile-id class:'. update() is exercised only as 'more GFF3 lines with new ids'; "
